@@ -225,6 +225,9 @@ pub enum Scenario {
     T(ScenarioT),
     /// C12: the same script under several environments / against a fresh engine
     Pair { base: ScenarioA, other: ScenarioA, compare_from_newgame: bool },
+    /// The workload generator itself (which plays out positions with the engine's own rules code)
+    /// made engine code panic while preparing run `run`: replayed by generating that run again.
+    Gen { run: u64 },
 }
 
 #[derive(Clone, Debug, Serialize, Deserialize)]
